@@ -180,7 +180,19 @@ func (q *Queue[T]) pop(i int) T {
 		q.data[i], q.data[n] = q.data[n], out
 		q.move(q.data[i], i) // N.B. we do not report a move of out.
 		q.data = q.data[:n]
-		q.pushDown(i)
+		if i < n && q.pushDown(i) == i {
+			// The element moved into position i came from the end of the heap,
+			// which need not lie below i: it may also be smaller than its new
+			// parent, so it may have to move up rather than down.
+			for i > 0 {
+				par := (i - 1) / 2
+				if q.cmp(q.data[i], q.data[par]) >= 0 {
+					break
+				}
+				q.swap(i, par)
+				i = par
+			}
+		}
 	}
 	return out
 }
